@@ -1,6 +1,7 @@
 """C11 - MEX gateway calls reach the right C++ code and never leak or double-free (Engines E, X)."""
 from .. import rules_matlab as RM
 from .. import rules_header as RH
+from .. import rules_flow as RF
 
 ID = "C11"
 EXPLANATION = (
@@ -29,3 +30,5 @@ def run(ctx, rep):
     rep.run(RM.rule_unload_hook, ctx, rep, "H3")
     rep.run(RM.rule_base_handle, ctx, rep, "H4")
     rep.run(RH.rule_handle_protocol, ctx, rep, "H5")
+    rep.run(RM.rule_return_ownership, ctx, rep, "H6")
+    rep.run(RF.rule_memo_key_complete, ctx, rep, "H7", packages=("gtwrap/matlab_wrapper",), min_functions=50)
